@@ -274,6 +274,12 @@ func init() {
 		fr.i.ex.sched.quiesce()
 		return nil
 	})
+	reg(rtPkg+".Yield", func(fr *frame, args []value) value {
+		if fr.i.ex.sched != nil {
+			fr.i.ex.sched.yield()
+		}
+		return nil
+	})
 	reg(rtPkg+".Spawned", func(fr *frame, args []value) value {
 		n := 0
 		for _, g := range fr.i.spawned {
@@ -761,10 +767,29 @@ func bytealgIndexByte(fr *frame, args []value) value {
 }
 
 func randRead(fr *frame, args []value) value {
+	ex := fr.i.ex
 	b := args[0].([]value)
+	draw := make([]*term, len(b))
 	for j := range b {
-		t, _ := fr.i.ex.newInput("rand.byte", 8)
+		t, _ := ex.newInput("rand.byte", 8)
+		draw[j] = t
 		b[j] = norm(t, types.Uint8)
+	}
+	// Two draws of at least 16 bytes from the random source differ (an assumption about the
+	// source, recorded with the path): without it "a fresh value per connection" is unprovable.
+	if len(b) >= 16 {
+		for _, prev := range ex.randDraws {
+			if len(prev) != len(draw) {
+				continue
+			}
+			differ := ex.tb.constBool(false)
+			for j := range draw {
+				differ = ex.tb.or(differ, ex.tb.not(ex.tb.eq(draw[j], prev[j])))
+			}
+			ex.addPC(differ)
+			ex.noteAssumption("two draws of >= 16 random bytes are distinct")
+		}
+		ex.randDraws = append(ex.randDraws, draw)
 	}
 	return tuple{len(b), iface{}}
 }
